@@ -41,6 +41,12 @@ type Scenario struct {
 	PrefixBlack   []string
 	Chunk         int // value-chunking threshold in bytes (0 = production default)
 	KeyExists     string
+	// PolicyGiven, when set, is the keyExists value handed to the output (what the tool's
+	// configuration loader made of the operator's YAML); KeyExists stays the intended policy
+	PolicyGiven *string
+	// CancelAtByte > 0: the replay context is cancelled at the moment the tool's reader has taken
+	// that many snapshot bytes (the rest is handed out as usual)
+	CancelAtByte int
 	Bisync        bool
 	BisyncMode    string // replay mode of a bisync scenario: "" / sync, pipeline, parallel
 	Prime         bool   // an earlier, completed (empty) snapshot at a lower offset left a root checkpoint, and the instance has looked it up once
@@ -151,6 +157,9 @@ func Run(sc *Scenario, hooks func(srv *fakeredis.Server, cancel context.CancelFu
 	cfg.TargetDb = sc.TargetDb
 	cfg.TargetDbMap = sc.DbMap
 	cfg.KeyExists = sc.KeyExists
+	if sc.PolicyGiven != nil {
+		cfg.KeyExists = *sc.PolicyGiven
+	}
 	cfg.BisyncEnabled = sc.Bisync
 	cfg.Filter = config.FilterConfig{DbBlacklist: sc.DbBlack}
 	if len(sc.PrefixBlack) > 0 {
@@ -203,7 +212,11 @@ func Run(sc *Scenario, hooks func(srv *fakeredis.Server, cancel context.CancelFu
 	r0 := len(srv.Requests())
 	f := drive.NewFeeder(runID, sc.Offset, int64(len(sc.File)), false, 4096)
 	rng := rand.New(rand.NewSource(int64(len(sc.File)) * 7919))
-	f.Play(drive.Plan(rng, sc.File, 0, sc.PlanStyle), true)
+	if b := sc.CancelAtByte; b > 0 && b < len(sc.File) {
+		f.Play([]drive.Step{{Data: sc.File[:b], Then: cancel}, {Data: sc.File[b:]}}, true)
+	} else {
+		f.Play(drive.Plan(rng, sc.File, 0, sc.PlanStyle), true)
+	}
 	defer f.Abort()
 	if hooks != nil {
 		hooks(srv, cancel, f)
